@@ -646,7 +646,8 @@ class Gen:
 
     # -- productions
     def p_producer(self):
-        kind = self.rng.choice(T.PRODUCER_KINDS)
+        # values that stores / packs / caches treat specially are drawn more often
+        kind = self.rng.choice(T.PRODUCER_KINDS + ['none', 'none', 'matrix', 'tagged', 'be', 'struct', 'empty', 'zero_d', 'int', 'list', 'table'])
         x = self.fresh()
         return self.emit('%s = const(%r, %d)' % (x, kind, self.rng.randint(0, 40)), [x], ['const:' + kind])
 
@@ -734,9 +735,12 @@ class Gen:
         w = self.fresh('w')
         step = r.choice([1, 2, 2, 3, 4, 5, None])
         f = r.choice(['m_sq', 'm_sq', 'm_neg', 'm_row', 'm_show'])
-        if f == 'm_neg' and step == 1:
+        seq = self.int_seq()
+        if step == 1 and (f == 'm_neg' or not seq.startswith('[')):
+            # jug limitations (not generated): map_step=1 needs a named function (not a TaskGenerator object) and ITERATES the
+            # sequence, which the result of another map (or a slice of it) refuses (TaskletMixin.__iter__ raises)
             step = 2
-        return self.emit('%s = jug.mapreduce.map(%s, %s%s)' % (w, f, self.int_seq(), '' if step is None else ', map_step=%d' % step),
+        return self.emit('%s = jug.mapreduce.map(%s, %s%s)' % (w, f, seq, '' if step is None else ', map_step=%d' % step),
                          [w], ['mapreduce.map', 'map_step:%s' % step, 'mapper:' + f], ['mapped'])
 
     def p_map_chain(self):
